@@ -173,6 +173,14 @@ def cacheable_spec(rng):
         for v in inputs_pool:
             v.setdefault("sgs", rng.randint(0, 1))
             v.setdefault("sgx", "run:sgx")
+    # ... and one route function returning None shared by two cached gates that differ in their FALLBACK only
+    if rng.random() < 0.3:
+        rg = {"k": "route", "fid": "shared/r", "shared_fn": "R", "pyname": "shared_r", "params": [{"n": "srs"}], "key": "srs", "targets": ["fa", "fb"], "table": [None, None], "cache": True, "open": False}
+        spec["nodes"] += [{**copy.deepcopy(rg), "name": "sra", "fallback": "fa"}, {**copy.deepcopy(rg), "name": "srb", "fallback": "fb"}]
+        spec["nodes"] += [{"k": "fn", "name": nm, "params": [{"n": "srx"}], "outs": [f"{nm}_out"]} for nm in ("fa", "fb")]
+        for v in inputs_pool:
+            v.setdefault("srs", 0)
+            v.setdefault("srx", "run:srx")
     # one function object shared by two nodes wired differently
     if rng.random() < 0.6:
         a, b = "sa", "sb"
